@@ -15,17 +15,24 @@
     * facts about slices are general lemmas with side conditions `simp` discharges (`copyFromSlice_full`), not equations about
       `List.replicate 12 0` at one offset.
   Sensitivity is not traded: every lemma still states equality with the hand-written model for all inputs.
-  tools/selftest_noise.py re-translates and re-builds this file for the harmless patches seeded/B3-*, B4-*, sixteen further
-  hand-made harmless rewrites, every seeded breaking patch on noise.rs / lib.rs, the ten hand-made breaking edits of the original
-  robustness test (ss DH error ignored; es / ss key pairs swapped; `mix_hash(re)` dropped; nonce big-endian; nonce offset 4 → 0;
-  payload-length check removed; `< 96` → `< 80`; second `hkdf_noise` output from 0x01) and fourteen breaking edits on top of the
-  harmless patches.
+  tools/selftest_noise.py re-translates and re-builds this file for the harmless patches seeded/B3-b1..b6, B4-b1..b6, twenty-two
+  further hand-made harmless rewrites, every seeded breaking patch on noise.rs / lib.rs, the ten hand-made breaking edits of the
+  original robustness test (ss DH error ignored; es / ss key pairs swapped; `mix_hash(re)` dropped; nonce big-endian; nonce offset
+  4 → 0; payload-length check removed; `< 96` → `< 80`; second `hkdf_noise` output from 0x01) and thirty-four breaking edits on top
+  of the harmless rewrites; twenty of them (K15 - K34) misuse exactly the constructs the second batch of harmless patches needs
+  (struct pattern in `let`, `match` on a call with effects, `Result::map` / `Option::map`, `split_at`, a branching expression with
+  statements as the value of a `let` or of the function, `Option::insert`, a dropped redundant call) and must be caught HERE, by a
+  lemma that no longer holds, not by a refusal of the translator.
+  The second batch needed one addition to this file: `Except.map` computes on constructors and mapping the identity is nothing
+  (`except_map_ok`, `except_map_error`, `except_map_id'`); everything else went through the lemmas as they were — in particular
+  `new_eq` proves that the `initialize_key(None)` call B4-b5 drops was redundant (and fails, K26, when it is not).
 -/
 import KestrelModel.GeneratedNoise
 import KestrelModel.Noise
 import KestrelProofs.Prims
 import KestrelProofs.Aead
 set_option linter.unusedSimpArgs false
+set_option linter.unusedVariables false     -- (a hypothesis a harmless rewrite makes unnecessary, e.g. `hpub` of `to_public_eq`, is not an error)
 namespace Kestrel.NoiseSrc
 open Kestrel Kestrel.Rs Kestrel.RsNoise
 
@@ -58,6 +65,12 @@ theorem okOr_toOption (o : Option α) : (Rs.okOr o).toOption = o := by cases o <
 
 theorem mapError_okOr (o : Option α) (f : Unit → Unit) : Except.mapError f (Rs.okOr o) = Rs.okOr o := by
   cases o <;> rfl
+
+/-- `r.map(|x| e)` on a `Result` (the translator writes `Except.map`): on a constructor it computes -/
+@[simp] theorem except_map_ok (f : α → β) (a : α) : Except.map f (Except.ok a : Except ε α) = .ok (f a) := rfl
+@[simp] theorem except_map_error (f : α → β) (e : ε) : Except.map f (Except.error e : Except ε α) = .error e := rfl
+/-- … and mapping the identity (what wrapping a value in a one-field struct, or unwrapping an orion newtype, translates to) is nothing -/
+@[simp] theorem except_map_id' (r : Except ε α) : Except.map (fun x => x) r = r := by cases r <;> rfl
 
 theorem copyFromSlice_full (dst src : List α) (h : dst.length = src.length) : Rs.copyFromSlice dst src = src := by
   simp [Rs.copyFromSlice, h]
